@@ -504,8 +504,12 @@ class Evaluator(object):
                     if sym.contains(k[0], lambda n: n == elem):
                         continue
                     st.heap[k] = ("loopval", lid, k[1], v)
-        if returned and not loop.pending:
-            pass
+        for lname, sites in loop.appends.items():
+            if len(sites) == 1 and st.locals.get(lname) == ("list",):
+                expr, rel = sites[0]
+                st.locals[lname] = ("comp", "list", expr, it, tuple(rel))
+            elif lname in st.locals:
+                st.locals[lname] = ("loopval", lid, lname, ("list",))
         return loop
 
     def _close_carried(self, L, pre, finals, it, loop, lid, name):
@@ -1021,6 +1025,10 @@ class Evaluator(object):
             return ("new", cname, tuple(args), tuple(sorted(kwargs.items())))
         if t == "bound":
             return self.call_method(fv[1], fv[2], args, kwargs, st, frame, node)
+        if t == "fld" and (fv[1] == SELF or self.ntype(fv[1], frame) is not None) and fv[2] not in ("stack", "_rb", "_algo", "model", "pred"):
+            ev = Event("call", recv=fv[1], name=fv[2], args=args, kwargs=kwargs, extra="fieldcall")
+            self.emit(ev, node, st, frame)
+            return ("fcall", fv[1], fv[2], tuple(args), tuple(sorted(kwargs.items())))
         # calling a value: an algo, a predicate, a model, a lambda ...
         rid = next(self._ids)
         ev = Event("call", recv=None, name="<value>", args=args, kwargs=kwargs, result=("res", rid), extra=fv)
@@ -1083,6 +1091,18 @@ class Evaluator(object):
             self.emit(ev, node, st, frame)
             return ("fcall", recv, name, tuple(args), tuple(sorted(kwargs.items())))
         # method of a non-node value (pandas, dict, list ...): pure unless a known mutator
+        src_name = node.func.value.id if isinstance(getattr(node, "func", None), ast.Attribute) and isinstance(node.func.value, ast.Name) else None
+        if kwargs.get("inplace") == ("bool", True) and src_name is not None and src_name in st.locals and _is_fresh(recv):
+            # x.sort_values(..., inplace=True) on an object created in this function: same as x = x.sort_values(...)
+            kw2 = dict((k, v) for k, v in kwargs.items() if k != "inplace")
+            st.locals[src_name] = ("mcall", recv, name, tuple(args), tuple(sorted(kw2.items())))
+            return NONE
+        if name == "append" and src_name is not None and frame.loops and len(args) == 1 and isinstance(recv, tuple) and recv and recv[0] in ("list", "listacc"):
+            loop = frame.loops[-1]
+            if recv[0] == "list" and len(recv) == 1 and not getattr(loop, "is_while", False):
+                rel = [l for l in st.guard if l not in loop.guard0 or l in loop.filter]
+                loop.appends.setdefault(src_name, []).append((args[0], tuple(l for l in rel if not (isinstance(l[0], tuple) and l[0] and l[0][0] == "impl"))))
+                return NONE
         if name in MUTATORS or kwargs.get("inplace") == ("bool", True):
             ev = Event("call", recv=recv, name=name, args=args, kwargs=kwargs, extra="mutate")
             self.emit(ev, node, st, frame)
@@ -1163,8 +1183,18 @@ class Evaluator(object):
         last_state, last_val = exits[-1]
         heap, subm, val = dict(last_state.heap), dict(last_state.sub), last_val
         tails = [tuple(es.guard[base:]) for es, _ in exits]
-        for es, ev_ in reversed(exits[:-1]):
-            cond = _conj(es.guard[base:])
+        # being in the else-branch of the earlier exits establishes the negation of their conditions:
+        # drop from each later exit's condition what is already known that way
+        conds = []
+        known = list(st.guard)
+        for es, _ in exits[:-1]:
+            tail = [l for l in es.guard[base:] if not (isinstance(l[0], tuple) and l[0] and l[0][0] == "impl")]
+            ksat = sym.sat(known)
+            simp = [l for l in tail if not sym.lit_holds(ksat, l[0], l[1])]
+            cond = _conj(simp)
+            conds.append(cond)
+            known.extend(literals(cond, False))
+        for (es, ev_), cond in reversed(list(zip(exits[:-1], conds))):
             val = _ite(cond, ev_, val)
             for k in set(heap) | set(es.heap):
                 a, b = es.heap.get(k), heap.get(k)
@@ -1345,6 +1375,7 @@ class Loop(object):
         self.value = None
         self.is_while = False
         self.test = None
+        self.appends = {}
 
     def __repr__(self):
         return "<Loop %s>" % sym.fmt(self.iter)
@@ -1454,6 +1485,22 @@ def _merge_guarded_terms(terms):
             if changed:
                 break
     return [(tuple(sorted(g, key=repr)), d) for g, d in items]
+
+
+def _is_fresh(v):
+    """A value created in the current function by a copying pandas operation (not an alias of caller data or heap state)."""
+    while isinstance(v, tuple) and v:
+        if v[0] == "mcall" and v[2] in ("dropna", "copy", "sort_values", "sort_index", "fillna", "reindex", "count", "astype", "diff", "unstack", "stack"):
+            return True
+        if v[0] == "call" and v[1] in ("pd.DataFrame", "pd.Series", "list", "dict", "sorted"):
+            return True
+        if v[0] == "sub" and v[1][0] == "attr" and v[1][2] == "loc":
+            return True  # label selection returns a new object
+        if v[0] == "sub":
+            v = v[1]
+            continue
+        return False
+    return False
 
 
 def _contradictory(guard):
